@@ -47,7 +47,7 @@ limits and statistics) — so soundness does not depend on the most-proving sele
 on when the second-level searches of PN² start and stop. -/
 theorem pn_numbers_sound_any_schedule (hg : GameOK G att) (root : S) {st st' : St S M}
     (hz : ZipOK G att root st) (hsteps : Steps G att st st') : ZipOK G att root st' :=
-  steps_ok G att root hg.alt hg.att hg.small hz hsteps
+  steps_ok G att root hg.alt hg.att (SmallBranching.smallFrom hg.small root) hz hsteps
 
 /-- **'proven' is sound**: the attacker has a forced win (plain least fixed point). -/
 theorem pn_proven_sound (hg : GameOK G att) (fuel : Nat) (cfg : PN.Cfg) (pos : S) (st : St S M)
@@ -90,6 +90,58 @@ theorem pn_proven_forcedWin (hg : GameOK G att) (hb : EqualIsBisim G) (fuel : Na
     (hrun : proveState G att fuel cfg pos = .ok st) (hghost : st.anomaly = false)
     (hres : (readResult st).1.result = .proven) : ForcedWin G att pos :=
   plainWin_forcedWin G att hb (pn_proven_sound G att hg fuel cfg pos st hroot hrun hghost hres)
+
+/-! ### the same, with the assumptions asked only of what a search from the root can reach
+
+`GameOK` and `EqualIsBisim` quantify over every value of the position type; an instance whose type
+also has malformed values (the bit-level Tak position) satisfies them only on the positions that play
+from the root can reach (`Reach G pos`: generated moves that the rules accept).  The solver never
+holds any other position, so that is all the theorems need (`GameOKFrom`, `EqualIsBisimFrom`); the
+versions above are the special case "everywhere". -/
+
+theorem pn_numbers_sound_from {pos : S} (hg : GameOKFrom G att pos) (fuel : Nat) (cfg : PN.Cfg) (st : St S M)
+    (hroot : G.toMove pos = att)
+    (hrun : proveState G att fuel cfg pos = .ok st) (hghost : st.anomaly = false)
+    {h : List S} {s : S} {n : Node M} (hn : NodeAt G st.focus pos h s n) :
+    (n.proof = 0 → PlainWin G att s) ∧
+    (st.depthLimited = false → n.disproof = 0 → ¬ Win G att h s) := by
+  obtain ⟨_, _, _, ht⟩ := proveState_ok_from G att hg fuel cfg st hroot hrun hghost
+  have := treeOK_nodeAt G att ht hn
+  rw [TreeOK_iff] at this
+  exact ⟨this.1.proof, this.1.disproof⟩
+
+theorem pn_proven_sound_from {pos : S} (hg : GameOKFrom G att pos) (fuel : Nat) (cfg : PN.Cfg) (st : St S M)
+    (hroot : G.toMove pos = att)
+    (hrun : proveState G att fuel cfg pos = .ok st) (hghost : st.anomaly = false)
+    (hres : (readResult st).1.result = .proven) : PlainWin G att pos := by
+  obtain ⟨_, _, _, ht⟩ := proveState_ok_from G att hg fuel cfg st hroot hrun hghost
+  exact readResult_proven G att st pos hroot ht hres
+
+theorem pn_disproven_sound_from {pos : S} (hg : GameOKFrom G att pos) (fuel : Nat) (cfg : PN.Cfg) (st : St S M)
+    (hroot : G.toMove pos = att)
+    (hrun : proveState G att fuel cfg pos = .ok st) (hghost : st.anomaly = false)
+    (hres : (readResult st).1.result = .disproven) : ¬ ForcedWin G att pos := by
+  obtain ⟨_, _, _, ht⟩ := proveState_ok_from G att hg fuel cfg st hroot hrun hghost
+  exact readResult_disproven G att st pos hroot ht hres
+
+theorem pn_move_sound_from {pos : S} (hg : GameOKFrom G att pos) (fuel : Nat) (cfg : PN.Cfg) (st : St S M)
+    (hroot : G.toMove pos = att)
+    (hrun : proveState G att fuel cfg pos = .ok st) (hghost : st.anomaly = false)
+    (hres : (readResult st).1.result = .proven) (m : M) (hm : (readResult st).1.move = some m) :
+    m ∈ G.moves pos ∧ ∃ s', G.apply pos m = some s' ∧ PlainWin G att s' := by
+  obtain ⟨_, _, _, ht⟩ := proveState_ok_from G att hg fuel cfg st hroot hrun hghost
+  exact readResult_move G att st pos hroot ht hres m hm
+
+omit [Inhabited M] in
+theorem plainWin_forcedWin_from {pos : S} (hb : EqualIsBisimFrom G pos) (w : PlainWin G att pos) :
+    ForcedWin G att pos :=
+  plainWin_win_nil_from G att hb w
+
+theorem pn_proven_forcedWin_from {pos : S} (hg : GameOKFrom G att pos) (hb : EqualIsBisimFrom G pos)
+    (fuel : Nat) (cfg : PN.Cfg) (st : St S M) (hroot : G.toMove pos = att)
+    (hrun : proveState G att fuel cfg pos = .ok st) (hghost : st.anomaly = false)
+    (hres : (readResult st).1.result = .proven) : ForcedWin G att pos :=
+  plainWin_forcedWin_from G att hb (pn_proven_sound_from G att hg fuel cfg st hroot hrun hghost hres)
 
 /-! ### the hypotheses are satisfiable: a toy game, solved by the model inside the kernel -/
 
